@@ -100,10 +100,13 @@ func init() {
 				hs(f, f%3)
 			}
 			hs(3, 0)
+			hs(12, 0)
+			hs(12, 1)
+			hs(12, 2)
 			if tier == "thorough" {
 				for ord := 0; ord <= 2; ord++ {
 					js = append(js, &Job{Module: "mcap", Harness: "VC10IdxLoadChunk", Params: P("max", 64, "ord", ord), TimeoutS: 1800, Solvers: cv})
-					for f := 0; f <= 10; f++ {
+					for f := 0; f <= 12; f++ {
 						hs(f, ord)
 					}
 				}
@@ -116,7 +119,7 @@ func init() {
 		bounds: map[string]any{
 			"quick": map[string]any{"leaf_parsers": "16 entry points (14 Parse*, Message.PopulateFrom, parseAttachmentReader incl. reading the data and both CRC accessors) on 0..64 bytes, all symbolic incl. the length (ParseChannel 48, ParseMetadata 40)",
 				"one_lexer_step": "Lexer.Next once from a lexer over 1..40 arbitrary bytes (48 for chunks) whose first byte is constrained to one opcode per job: every opcode 0x00..0x0F and 'any opcode >= 0x10' (one job each; a partition of all first bytes); chunk records with validation on/off and EmitChunks; attachments with/without callback; with MaxRecordSize = MaxDecompressedChunkSize = 20 the allocation ceiling is 40 bytes, otherwise 2 GiB; EmitInvalidChunks/ComputeAttachmentCRCs symbolic; per-loop unwinding bound 16384",
-				"indexed_reader_units": "readRecord on 0..32 arbitrary bytes; the whole Reader API (Info, GetAttachmentReader, GetMetadata, Messages, NextInto x4) on a real written file in which ONE field is replaced by an arbitrary 64-bit value: summary_offset_start, message_index_length, attachment-index length, the chunk record's length, chunk_length"},
+				"indexed_reader_units": "readRecord on 0..32 arbitrary bytes; the whole Reader API (Info, GetAttachmentReader, GetMetadata, Messages, NextInto x4) on a real written file in which ONE field is replaced by an arbitrary 64-bit value: summary_offset_start, message_index_length, attachment-index length, the chunk record's length, chunk_length, the length of the last record inside a chunk"},
 			"thorough": map[string]any{"leaf_parsers": "0..128 bytes", "one_lexer_step": "56/64 bytes; inside a chunk (LimitedReader with symbolic remaining count) for schema/channel/message/attachment", "indexed_reader_units": "indexedMessageIterator.loadChunk over an arbitrary file of 0..64 bytes with every ChunkIndex field symbolic, then the pending messages yielded, in all three orders (a few slice-bounds queries at symbolic offsets time out on all three solvers and are reported as inconclusive: that is why this unit is not in the quick tier); all 11 hostile fields x 3 orders (summary_start, chunk_start_offset, attachment/metadata offsets, uncompressed_size, first summary record length: heavy, any solver timeout is reported as inconclusive)"}},
 		assumptions: commonAssumptions,
 	}
@@ -494,6 +497,9 @@ func init() {
 					}
 					frag(f.tpl, f.cfg, f.cs, f.validate, rd, 2, "mr", 0)
 					frag(f.tpl, f.cfg, f.cs, f.validate, rd, 2, "mr", 3)
+					if rd >= 2 {
+						js = append(js, &Job{Module: "mcap", Harness: "VC15Seek", Params: P("tpl", f.tpl, "cfg", f.cfg, "cs", f.cs, "ord", rd-2, "slo", 0, "shi", 16), TimeoutS: 900})
+					}
 					if tier == "quick" {
 						errj(f.tpl, f.cfg, f.cs, f.validate, rd, rd%2, 512)
 					} else {
@@ -505,10 +511,10 @@ func init() {
 			return js
 		},
 		bounds: map[string]any{
-			"quick":    map[string]any{"file": "T5 chunked (one chunk per message, CRC on), validating lexer", "readers": "lexer; non-indexed iterator; indexed iterator in file order and in log-time order", "fragmentation": "one short read at symbolic read-call index J (0..95, cells of 8; beyond the last call the run is the plain one) returning symbolic K bytes (1..9: every split of a 9-byte record header); every read limited to 1, 2, 5 bytes; final bytes delivered together with io.EOF", "io_error": "sticky error at symbolic byte position E (cells of 16 over the whole file), delivered on its own call or together with the last good bytes", "symbolic": "J, K, E, every field value and byte of the file"},
+			"quick":    map[string]any{"file": "T5 chunked (one chunk per message, CRC on), validating lexer", "readers": "lexer; non-indexed iterator; indexed iterator in file order and in log-time order", "fragmentation": "one short read at symbolic read-call index J (0..95, cells of 8; beyond the last call the run is the plain one) returning symbolic K bytes (1..9: every split of a 9-byte record header); every read limited to 1, 2, 5 bytes; final bytes delivered together with io.EOF", "io_error": "sticky error at symbolic byte position E (cells of 16 over the whole file), delivered on its own call or together with the last good bytes; for index-based reads also a failure of the Seek call with symbolic index S in 0..15 (more Seek calls than the reads make)", "symbolic": "J, K, E, every field value and byte of the file"},
 			"thorough": map[string]any{"files": "T1,T5,T6,T7 under 7 option sets (incl. xor codec, unchunked, non-validating)", "readers": "as quick + reverse log-time order", "fragmentation": "J over 0..159", "io_error": "both delivery forms at every position"},
 		},
-		outside:     append([]string{"a one-shot (non-sticky) error delivered together with the last bytes a ReadFull needs: io.ReadAtLeast drops it by specification", "more than one short read per run (the every-read-limited schedules cover repeated fragmentation)", "Seek failures"}, outsideCommon...),
+		outside:     append([]string{"a one-shot (non-sticky) error delivered together with the last bytes a ReadFull needs: io.ReadAtLeast drops it by specification", "more than one short read per run (the every-read-limited schedules cover repeated fragmentation)"}, outsideCommon...),
 		assumptions: commonAssumptions,
 	}
 }
